@@ -1726,7 +1726,7 @@ func runKMountC05(c *core.Case, k int) {
 		case 2:
 			q = fmt.Sprintf("DELETE FROM t0 WHERE id%%3=%d", c.Rng.IntN(3))
 		case 3:
-			q = fmt.Sprintf("INSERT INTO t0 SELECT id+%d, k, randomblob(%d) FROM t0 LIMIT %d", 100000*(step+1), 200+c.Rng.IntN(3000), 3+c.Rng.IntN(12))
+			q = fmt.Sprintf("INSERT OR IGNORE INTO t0 SELECT id+%d, k, randomblob(%d) FROM t0 LIMIT %d", 100000*(step+1), 200+c.Rng.IntN(3000), 3+c.Rng.IntN(12))
 		case 4:
 			if mode == "wal" {
 				q = fmt.Sprintf("PRAGMA wal_checkpoint(%s)", pick(c, []string{"PASSIVE", "FULL", "RESTART", "TRUNCATE"}))
